@@ -12,6 +12,13 @@ if ! git apply "$patch" 2>/tmp/apply.err; then
 fi
 git diff --stat | tail -3
 cd /verif
+# would the translator's output change?  then the shared coq/gen would be rewritten: only do that when nothing else is running
+rm -rf /tmp/verif-gen-probe; mkdir -p /tmp/verif-gen-probe
+VERIF_GEN_OUT=/tmp/verif-gen-probe VERIF_REPO="$wt" /venv/bin/python /verif/harness/gen.py >/dev/null 2>&1
+same=1; for f in /tmp/verif-gen-probe/*.v; do cmp -s "$f" /verif/coq/gen/$(basename "$f") || same=0; done
+if [ $same = 0 ] && [ -z "$FORCE" ]; then
+  echo "GEN OUTPUT DIFFERS with this patch: rerun with FORCE=1 when no other check is running"; git -C "$wt" checkout -- .; exit 4
+fi
 export VERIF_EVIDENCE_DIR=/tmp/verif-evidence-mutants VERIF_REPO="$wt"
 for p in "$@"; do ./check "$p" 2>&1 | grep -E "^(VIOLATION|KNOWN|C[0-9]+ quick|BROKEN)" | cut -c1-300; done
 git -C "$wt" checkout -- .
